@@ -796,6 +796,36 @@ def _proj_str(proj):
     return s
 
 
+_SELECTORS = {}
+
+
+def selector_of(prog, c):
+    """[(argument index, projection suffix)] when the callee is a small local function without side effects that
+    returns one of >= 2 different places of its parameters, else None"""
+    key = c.resolved or c.callee
+    if key in _SELECTORS:
+        return _SELECTORS[key]
+    _SELECTORS[key] = None
+    cb = prog.body(key) if key else None
+    if cb is None or cb.kind not in ("Fn", "AssocFn") or len(cb.blocks) > 16:
+        return None
+    if any(not is_transparent(x) for x in cb.calls):
+        return None
+    names = {}
+    for l in range(1, cb.argc + 1):
+        names[cb.local_name(l) or ("arg%d" % l)] = l - 1
+    out = set()
+    for dsc in describe(cb, ["c", [0]], 12):
+        m = re.match(r"^(\w+)((?:\.[\w.]+)?)$", dsc)
+        if not m or m.group(1) not in names or not m.group(2):
+            return None
+        out.add((names[m.group(1)], m.group(2)))
+    if len(out) < 2:
+        return None
+    _SELECTORS[key] = sorted(out)
+    return _SELECTORS[key]
+
+
 def describe(body, operand, depth=16, _seen=None):
     """set of symbolic descriptions of where an operand's value comes from, e.g.
        'self.conns[id]', 'req.serial', 'Object::conn_id(self.objs[self.svc_uuids[req.cookie].0.uuid])',
@@ -904,6 +934,16 @@ def describe_place(body, place, depth, _seen):
                 else:
                     out |= describe(body, o, depth - 1, _seen)
                 continue
+            sel = selector_of(body.prog, c) if getattr(body, "prog", None) is not None else None
+            if sel:
+                # a local helper that merely selects one of several places of its arguments (`match end { Sender =>
+                # &self.sender, Receiver => &self.receiver }`): describe through it, so that extracting such a helper
+                # does not blind the rules
+                for (ai, suffix) in sel:
+                    if ai < len(c.args):
+                        for dsc in describe(body, c.args[ai], depth - 1, _seen):
+                            out.add(dsc + suffix + _proj_str(proj))
+                continue
             argd = []
             for o in c.args[:3]:
                 ds = sorted(describe(body, o, depth - 1, _seen))
@@ -977,7 +1017,62 @@ def guard_strings(body, bb):
             for lab in labels:
                 for sj in subj:
                     out.append("%s=int(%s)" % (lab, sj))
-    return out
+    return out + _equivalent_forms(out)
+
+
+_SWAP = {"eq": "eq", "ne": "ne", "lt": "gt", "gt": "lt", "le": "ge", "ge": "le", "Eq": "Eq", "Ne": "Ne", "Lt": "Gt", "Gt": "Lt", "Le": "Ge", "Ge": "Le"}
+_NEG = {"eq": "ne", "ne": "eq", "lt": "ge", "ge": "lt", "le": "gt", "gt": "le", "Eq": "Ne", "Ne": "Eq", "Lt": "Ge", "Ge": "Lt", "Le": "Gt", "Gt": "Le"}
+
+
+def _split_two(argstr):
+    """split 'a, b' at the top-level comma"""
+    depth = 0
+    for i, ch in enumerate(argstr):
+        if ch in "([":
+            depth += 1
+        elif ch in ")]":
+            depth -= 1
+        elif ch == "," and depth == 0 and argstr[i:i + 2] == ", ":
+            rest = argstr[i + 2:]
+            # exactly two arguments
+            d2 = 0
+            for j, c2 in enumerate(rest):
+                if c2 in "([":
+                    d2 += 1
+                elif c2 in ")]":
+                    d2 -= 1
+                elif c2 == "," and d2 == 0:
+                    return None
+            return argstr[:i], rest
+    return None
+
+
+def _equivalent_forms(gs):
+    """`a != b` may be written `b != a`, `!(a == b)`, ...: add the equivalent spellings of every comparison guard so that
+    a rule written against one spelling keeps matching after such a flip"""
+    extra = []
+    have = set(gs)
+    for g in gs:
+        m = re.match(r"^(True|False)=((?:PartialEq|PartialOrd)::)?(eq|ne|lt|le|gt|ge|Eq|Ne|Lt|Le|Gt|Ge)\((.*)\)$", g)
+        if not m:
+            continue
+        val, pre, op, args = m.group(1), m.group(2) or "", m.group(3), m.group(4)
+        ab = _split_two(args)
+        if not ab:
+            continue
+        a, b = ab
+        nval = "False" if val == "True" else "True"
+        pre_for = lambda o: ("PartialEq::" if o in ("eq", "ne") else "PartialOrd::") if pre else ""
+        forms = [
+            "%s=%s%s(%s, %s)" % (val, pre_for(_SWAP[op]), _SWAP[op], b, a),
+            "%s=%s%s(%s, %s)" % (nval, pre_for(_NEG[op]), _NEG[op], a, b),
+            "%s=%s%s(%s, %s)" % (nval, pre_for(_SWAP[_NEG[op]]), _SWAP[_NEG[op]], b, a),
+        ]
+        for f in forms:
+            if f not in have:
+                have.add(f)
+                extra.append(f)
+    return extra
 
 
 Body.guard_strings = lambda self, bb: guard_strings(self, bb)
